@@ -30,6 +30,13 @@ def handle (j : Json) : R (List (String × Json)) := do
     -- vicinity clustering: activities of a cluster are reached by commuting from a parking place, which the feasibility
     -- and replay specifications do not model; the partition specification (ids, counts, places) applies unchanged
     let clustered := match spJ.getObjVal? "clustering" with | .ok v => !v.isNull | .error _ => false
+    -- what an operator history ends in: partition only (pins and relation exemptions of histories are judged by C04)
+    let ophist := (fldD j "k" Json.null) == Json.str "ophist"
+    if ophist then
+      return [("model", Json.null),
+              ("oracle", Json.mkObj [("partition", Json.bool pa.isEmpty)]),
+              ("info", Json.mkObj [("operator_history", Json.bool true), ("partition", strs pa),
+                                   ("tours", jNat s.tours.length), ("unassigned", jNat s.unassigned.length)])]
     if clustered then
       return [("model", Json.null),
               ("oracle", Json.mkObj [("partition", Json.bool pa.isEmpty)]),
